@@ -94,7 +94,7 @@ def main(tier):
     _sh.rmtree(gitdir, ignore_errors=True)
     RC.set_git_template(RC.make_git_template(gitdir))
     sh = shapes()
-    seeds = [3] if tier == "quick" else [3, 11, 29, 41, 57]
+    seeds = [3] if tier == "quick" else [3, 11]
     refs = []
     for s in sh:
         for seed in seeds:
